@@ -59,7 +59,16 @@ checks = {
         "Kani 0.68.0 / CBMC 6.11 / cadical; Verus 0.2026.09.13 / Z3",
         "hand-written Kani renderings (contract stubs) of the Verus-proved contracts validate_signers / validate_proof",
     ],
-    "_replay_scenarios": {},
+    "_replay_scenarios": {
+        "C16.example_validates": "c16_example_validates",
+        "C12.set_admin_event": "c12_set_admin_event",
+        "C04.hub_address_checked": "c04_hub_address_checked",
+        "C11.its_remains_minter": "c11_its_remains_minter",
+        "C02.consume_iff_exact_approval": "c02_consume_once",
+        "C02.consumed_marks_executed": "c02_consume_once",
+        "C02.one_executed_event": "c02_consume_once",
+        "C13.one_exact_announcement": "c13_call_contract_event",
+    },
     "C01": {
         "verus": ["C01."],
         "kani": gw_approve + [k(GW, C + "c01_validate_proof_entry", "AxelarGateway::validate_proof")],
